@@ -127,6 +127,14 @@ func c05Build(c c05Case) ociregistry.Interface {
 		return c05HTTP(ocifilter.Sub(rec, c05Prefix), c)
 	case "uni":
 		return ociunify.New(rec, c05Rec(c.Kind, c.Items2, -1).Funcs(), nil)
+	case "uni-notfound", "notfound-uni":
+		// the other member does not know the repository at all
+		nf := newRecBackend()
+		nf.Err = ociregistry.ErrNameUnknown
+		if c.Stack == "uni-notfound" {
+			return ociunify.New(rec, nf.Funcs(), nil)
+		}
+		return ociunify.New(nf.Funcs(), rec, &ociunify.Options{ReadPolicy: ociunify.ReadConcurrent})
 	case "uni-http1":
 		return ociunify.New(c05HTTP(rec, c), c05HTTP(c05Rec(c.Kind, c.Items2, -1).Funcs(), c), &ociunify.Options{ReadPolicy: ociunify.ReadConcurrent})
 	case "http1-uni":
@@ -141,7 +149,7 @@ func c05Want(c c05Case) []string {
 	for _, it := range c.Items {
 		set[it] = true
 	}
-	if strings.Contains(c.Stack, "uni") {
+	if strings.Contains(c.Stack, "uni") && !strings.Contains(c.Stack, "notfound") {
 		for _, it := range c.Items2 {
 			set[it] = true
 		}
@@ -180,9 +188,44 @@ func c05Want(c c05Case) []string {
 	return want
 }
 
+// c05Overlap obtains several listings before consuming any of them: each must still deliver its own sequence.
+func c05Overlap(r *vcore.Run, c c05Case, reg ociregistry.Interface) {
+	ctx := context.Background()
+	fp := fmt.Sprintf("C05/%s/%s/overlapping-iterations", c.Kind, c.Stack)
+	r.Guard("list", fp, c, func() {
+		type it struct {
+			after string
+			seq   ociregistry.Seq[string]
+		}
+		var its []it
+		for _, after := range []string{"", "a", "b0"} {
+			if c.Kind == "repos" {
+				its = append(its, it{after, reg.Repositories(ctx, after)})
+			} else {
+				its = append(its, it{after, reg.Tags(ctx, "r", after)})
+			}
+		}
+		// an unrelated listing in between
+		ociregistry.All(reg.Repositories(ctx, "zz"))
+		for _, x := range its {
+			cc := c
+			cc.After = x.after
+			want := c05Want(cc)
+			got, err := ociregistry.All(x.seq)
+			if err != nil || strings.Join(got, ",") != strings.Join(want, ",") {
+				r.Violate("list", fp, cc, strings.Join(want, ","), fmt.Sprintf("%v err=%v", got, err))
+			}
+		}
+	})
+}
+
 func c05Run(r *vcore.Run, c c05Case) {
 	fp := fmt.Sprintf("C05/%s/%s", c.Kind, c.Stack)
 	reg := c05Build(c)
+	if (c.Stack == "mem" || c.Stack == "http1-mem" || c.Stack == "rec") && c.Kind != "referrers" && c.StopAfter == 0 && c.ErrAfter < 0 && c.After == "" && !(c.ServerMax > 0 && c.ClientN > c.ServerMax) {
+		c05Overlap(r, c, reg)
+		reg = c05Build(c)
+	}
 	var res opResult
 	repo := "r"
 	if strings.Contains(c.Stack, "sel") {
@@ -212,7 +255,7 @@ func c05Run(r *vcore.Run, c c05Case) {
 	if c.Kind == "referrers" && res.Out != "" {
 		got = strings.Split(res.Out, ",")
 	}
-	if c.ErrAfter >= 0 && strings.Contains(c.Stack, "uni") {
+	if c.ErrAfter >= 0 && strings.Contains(c.Stack, "uni") && !strings.Contains(c.Stack, "notfound") {
 		// one member failing: the other member's items may still be delivered (followed by the
 		// error unless the consumer stops first): an ascending duplicate-free subsequence of the model
 		j := 0
@@ -424,6 +467,14 @@ func c05Cases(thorough bool) []c05Case {
 							add(c05Case{Kind: kind, Stack: stack, Items: pr[0], Items2: pr[1], ClientN: ps, After: after})
 						}
 					}
+				}
+			}
+		}
+		if kind != "repos" {
+			// one member fails part-way while the other does not know the repository: the error must surface
+			for n := 0; n <= 4; n++ {
+				for _, stack := range []string{"uni-notfound", "notfound-uni"} {
+					add(c05Case{Kind: kind, Stack: stack, Items: plain[:n], ClientN: 1})
 				}
 			}
 		}
